@@ -93,6 +93,14 @@ var props = map[string]*propCfg{
 			"paths whose keys are unknown or marked, and steps through unknown containers, are outside the oracle (documented as unsupported); attribute steps use normalized names",
 			"two indistinguishable unknown members of one set would share one path; generated values keep one of them"},
 		stubs: []string{"Walk / Transform callbacks and Transformer (spies with injected prune, failure, replacement)", "caller of the PathSet API (seeded history)"}},
+	"C17": {quickRuns: 1 << 40, quickBudget: 30 * time.Second, thorBudget: 9 * time.Minute, thorRuns: 1 << 40, level: "exploration", procShrink: 40, rlimitAS: 3 << 30,
+		rule: "one evaluation = one simulated store round trip: 2..5 records are written (valid JSON encodings of generated values under generalized type constraints, MessagePack encodings with unknowns refined in every way and dynamic wrappers at any depth, JSON type descriptions with placeholders and optional attributes, noise over an alphabet of header bytes and JSON punctuation, hand-made extension records with 30 hostile refinement bodies and 19 bare headers with absurd lengths); one record is read back after 1..4 storage faults drawn from a per-run random subset of 11 kinds (bit flip, overwrite with a meaningful byte, torn write, lost sector, duplicated sector, misdirected read splicing a fragment of another record, zero fill, length-field edit guided by the checker's own MessagePack scanner, JSON token damage (kind swap, dropped delimiter, duplicated key, nesting up to 4000 deep, number respelling, token swap, object/array confusion), replacement of an item by a hostile refinement record, replacement by a bare header) - or undamaged in the 10% control group - through all five decoders with a target type equal to, derived from (12 edit kinds) or unrelated to the original; every implied type is fed back as a decoding target. A run is non-trivial when at least one fault changed the record or the record is noise / hand-made; distinct = distinct (codec, relation of the target type, sequence of fired faults).",
+		assumptions: []string{"memory bound: every make() in go-cty's decoder packages (seam inserted by the instrumenter) may request at most 64 KiB + 4096 x record size in total, and total allocation measured by the runtime (confirmed with exact accounting) at most 4 MiB + 16384 x record size; the constant covers the fixed 1 MB read chunk of vmihailenco/msgpack; both over-approximate peak use",
+			"decimal exponents beyond 10^6 (10^-4) in a damaged record are cut to that many digits before decoding: go-cty compares and hashes numbers through their full decimal expansion, so rendering larger ones takes minutes per operation (the effect is already reported at 10^6 through its memory footprint, see known_findings.txt)",
+			"conformance of a result to the requested type is go-cty's TestConformance, which disregards optional-attribute annotations as the property says",
+			"a decoder returning (DynamicVal, err) together is an error result; only the error matters",
+			"worker processes run under a 3 GiB address-space limit so that an absurd allocation is a deterministic death, attributed to the record through the tape dumped before decoding"},
+		stubs: []string{"record store with fault injection (the library is handed complete byte slices; it has no I/O of its own)", "writers and readers (seeded)"}},
 	"C05": {quickRuns: 160000, quickBudget: 40 * time.Second, thorBudget: 9 * time.Minute, thorRuns: 1 << 40, level: "exploration",
 		rule: "one evaluation = one simulated run: either a seeded history of 1..12 refinement-builder calls with interleaved NewValue snapshots (builder reused after a snapshot, or refining restarted from a snapshot; rejected calls are the injected contradictions) checked call by call against an interval/nullness/prefix/length model with 8 membership candidates, or one generated string cut at every rune boundary with 5 continuations each. A run is non-trivial when at least one builder call was accepted or more than one cut was examined; distinct = distinct (start type and kind | string, multiset of fired fault kinds) among non-trivial runs.",
 		assumptions: []string{"numbers are compared by their shortest decimal rendering (integers exactly), as go-cty documents for Equals since 1.9.0",
@@ -277,11 +285,12 @@ func makeOverlay(dir string) (string, string) {
 // ---------------------------------------------------------------------------
 
 type workerResult struct {
-	viols    []*violRec
-	nondet   []string
-	stats    []map[string]interface{}
-	done     uint64
-	procFail []procFailure
+	viols        []*violRec
+	nondet       []string
+	stats        []map[string]interface{}
+	done         uint64
+	procFail     []procFailure
+	inconclusive int
 }
 
 type violRec struct {
@@ -406,6 +415,10 @@ func readResults(path string, res *workerResult) (lastStart int64, lastSim strin
 		case "nondeterministic":
 			open = -1
 			res.nondet = append(res.nondet, fmt.Sprintf("run %d: %s", l.I, l.Msg))
+		case "inconclusive":
+			open = -1
+			res.done++
+			res.inconclusive++
 		case "stats":
 			var full map[string]interface{}
 			json.Unmarshal(line, &full)
@@ -434,6 +447,9 @@ func workerEnv(cfg *propCfg) []string {
 	env := os.Environ()
 	if cfg.race {
 		env = append(env, "GORACE=halt_on_error=1 exitcode=66 history_size=7")
+	}
+	if cfg.rlimitAS > 0 && !cfg.race {
+		env = append(env, fmt.Sprintf("VERIF_RLIMIT_AS=%d", cfg.rlimitAS))
 	}
 	return env
 }
@@ -609,6 +625,7 @@ func cmdCheck(args []string) {
 		agg.stats = append(agg.stats, r.stats...)
 		agg.procFail = append(agg.procFail, r.procFail...)
 		agg.done += r.done
+		agg.inconclusive += r.inconclusive
 	}
 	if len(agg.nondet) > 0 {
 		s.cleanup()
@@ -647,7 +664,12 @@ func cmdCheck(args []string) {
 			cmd := exec.Command(s.worker, "replay", "-q", "-file", v.file)
 			cmd.Env = workerEnv(cfg)
 			err := cmd.Run()
-			if code := exitCode(err); code != 1 {
+			if code := exitCode(err); code != 1 && v.rp.Class == "excessive-allocation" {
+				// decided on a measured quantity (bytes allocated): not reproducing in a fresh process is
+				// inconclusive, never reported and never a harness fault
+				agg.inconclusive++
+				continue
+			} else if code != 1 {
 				s.cleanup()
 				die(2, "non-deterministic harness: violation %s (%s) did not reproduce in a fresh process (exit %d); replay file %s", v.rp.Class, v.rp.Signature, code, v.file)
 			}
